@@ -261,8 +261,12 @@ class Run(Stats):
             "coverage": cov, "assumptions": self.assumptions, "wall_s": round(wall, 2),
             "violations": len(self.violations),
         }
-        os.makedirs(os.path.join(HERE, "evidence"), exist_ok=True)
-        with open(os.path.join(HERE, "evidence", "%s.json" % self.pid), "w") as f:
+        # a developer run against a scratch copy (VERIF_REPO set to something else than /repo) must not overwrite the evidence of the real tree
+        edir = os.path.join(HERE, "evidence")
+        if os.path.realpath(os.environ.get("VERIF_REPO", "/repo")) != "/repo":
+            edir = os.path.join(HERE, ".scratch", "evidence-of-scratch-copies")
+        os.makedirs(edir, exist_ok=True)
+        with open(os.path.join(edir, "%s.json" % self.pid), "w") as f:
             json.dump(ev, f, indent=1, sort_keys=True)
         for l in self.known_lines:
             print(l)
